@@ -25,7 +25,7 @@ _S = {}
 KNOWN = {'c15f': 'c15.m.c15f', 'c15.m.c15f': 'c15.m.c15f', 'm.c15g': 'c15.m.c15g', 'c15g': 'c15.m.c15g'}
 UNKNOWN_T = ['c15_unk1', 'other.c15_unk2', 'c15.m.c15_unk3']
 UNKNOWN_R = ['c15_unkref1', 'x.c15_unkref2']
-MISSING_MODS = ['vf_missing_mod_a', 'os.vf_missing_sub']
+MISSING_MODS = ['vf_missing_mod_a', 'os.vf_missing_sub', 'vf_c15_unimportable']   # the last exists, but raises a bare ImportError (a dependency of it is missing)
 
 
 def setup(ctx):
@@ -35,6 +35,9 @@ def setup(ctx):
   _S['cons'] = probes.build({'shape': 'fn', 'api': 'external', 'name': 'c15cons', 'module': 'c15.m', 'pos': [], 'dflt': [['v', None], ['w', None]],
                              'varargs': False, 'kwonly': [], 'varkw': False})
   _S['tree'] = pkgtree.Tree()
+  import os
+  with open(os.path.join(_S['tree'].root, 'vf_c15_unimportable.py'), 'w') as fh:
+    fh.write("raise ImportError('a dependency of this module is not installed')\n")
 
 
 def finish(ctx):
